@@ -417,6 +417,20 @@ func (fr *frame) writeTo(w value, s value) value {
 	if wi.t == nil {
 		fr.tpanic("nil io.Writer")
 	}
+	if wi.t.String() == "*strings.Builder" {
+		// straight into the builder's text: no conversion to bytes, so
+		// opaque renderings (a %.4f of a symbolic value) survive
+		b := fr.m.builderOf(wi.v)
+		*b = concatStr(*b, s)
+		n := BV(0, 64)
+		switch x := s.(type) {
+		case string:
+			n = BV(uint64(len(x)), 64)
+		case *SymStr:
+			n = fr.m.strLen(x)
+		}
+		return tuple{n, iface{}}
+	}
 	f := fr.m.p.findMethod(wi.t, "Write")
 	if f == nil {
 		panic(pathAbort{"Fprint to a writer without Write"})
